@@ -473,6 +473,23 @@ func genC10(t *rapid.T) C10Case {
 		}
 		l = tl
 	}
+	if rapid.IntRange(0, 19).Draw(t, "infPair") == 0 {
+		// two files with +Inf and -Inf in the same slot (their sum is NaN although both have a value), finite
+		// values and holes around it; exactly two files, so the order of summation cannot matter
+		d := c.Files[0].Dir
+		var two []TreeFile
+		for i := 0; i < 2; i++ {
+			two = append(two, TreeFile{Dir: d, Name: fmt.Sprintf("f%d.wsp", i+1), Spec: FileSpec{L: l, Writes: genWrites(t, l, now, valDyadic, 15)}})
+		}
+		a := rapid.IntRange(0, len(l.Archives)-1).Draw(t, "infArch")
+		for n := rapid.IntRange(1, 3).Draw(t, "infSlots"); n > 0; n-- {
+			tt := now - rapid.Int64Range(0, minI64(l.Archives[a].Ret(), l.MaxRet())-1).Draw(t, "infAge")
+			first := rapid.IntRange(0, 1).Draw(t, "posFirst")
+			two[first].Spec.Writes = append(two[first].Spec.Writes, SlotWrite{Arch: a, T: tt, V: F64(math.Inf(1))})
+			two[1-first].Spec.Writes = append(two[1-first].Spec.Writes, SlotWrite{Arch: a, T: tt, V: F64(math.Inf(-1))})
+		}
+		c.Files = two
+	}
 	c.ItemPattern, c.SrcPattern = genTreePatterns(t, c.Files)
 	c.From, c.Until = genCLIWindow(t, l, now)
 	if rapid.IntRange(0, 2).Draw(t, "oneArchive") == 0 {
